@@ -85,10 +85,21 @@ def build(tree, provider=None, order=None, into=None):
     c = new_component(tree["c"])
     if into is not None:
         into.append(c)
-    for p in tree["p"]:
+    calls = []        # [name, [specs], params]: a property flagged {"join": true} (4th element) rides in the add() call of the
+    for p in tree["p"]:   # latest earlier call of the same name as one more element of a list value: add(name, [v1, v2])
         name, spec = p[0], p[1]
         params = p[2] if len(p) > 2 and p[2] else None
-        c.add(name, dec_value(spec, provider), parameters=dict(params) if params else None)
+        if len(p) > 3 and p[3] and p[3].get("join") and not params:
+            prev = next((cl for cl in reversed(calls) if cl[0].upper() == name.upper() and cl[2] is None), None)
+            if prev is not None:
+                prev[1].append(spec)
+                continue
+        calls.append([name, [spec], params])
+    for name, specs, params in calls:
+        if len(specs) > 1:
+            c.add(name, [dec_value(sp, provider) for sp in specs])
+        else:
+            c.add(name, dec_value(specs[0], provider), parameters=dict(params) if params else None)
     for s in tree["s"]:
         c.add_component(build(s, provider, into=into))
     return c
